@@ -616,6 +616,14 @@ def case_wants_debug_logging(c):
         return False
 
 
+def case_wants_warnings_as_errors(c):
+    import zlib
+    try:
+        return (zlib.crc32(canon(c).encode("utf-8", "replace")) >> 1) % 4 == 0
+    except Exception:
+        return False
+
+
 def set_debug_logging(on):
     import logging
     root = logging.getLogger()
@@ -641,7 +649,16 @@ def evaluate_cases(P, cases):
     for c in cases:
         set_debug_logging(case_wants_debug_logging(c))
         try:
-            ires = with_alarm(getattr(P, "CASE_TIMEOUT", 20), P.impl, c)
+            if getattr(P, "WARNINGS_AS_ERRORS_OK", True) and case_wants_warnings_as_errors(c):
+                # a quarter of the cases run with warnings turned into errors (pytest -W error, a strict service): a warning
+                # the library emits on a route that is not deprecated then aborts the call (harness routes that use a
+                # deprecated API on purpose silence warnings locally, which takes precedence)
+                import warnings
+                with warnings.catch_warnings():
+                    warnings.simplefilter("error")
+                    ires = with_alarm(getattr(P, "CASE_TIMEOUT", 20), P.impl, c)
+            else:
+                ires = with_alarm(getattr(P, "CASE_TIMEOUT", 20), P.impl, c)
         except Timeout:
             ires = {"error": "Timeout"}
         except Exception as e:  # impl() is expected to catch; anything here is a harness-visible crash
